@@ -482,6 +482,7 @@ fn main() {
     });
 
     let mut failures_json = Vec::new();
+    let mut unstable = 0u64;
     let mut reps: Vec<(&String, &(u64, Failure))> = batch.failures.iter().collect();
     reps.sort_by_key(|(_, (i, _))| *i);
     for (class, (index, fail)) in reps.into_iter().take(8) {
@@ -494,8 +495,13 @@ fn main() {
                 failures_json.push(json!({"class": class, "run_index": index, "signature": format!("C16/D0-seam/{}", def.id), "what": fail.what, "replay": ""}));
                 continue;
             }
-            eprintln!("hash-sim: definition {} diverged in the batch but not when re-run with the same keys: nondeterminism outside the seam", def.id);
-            std::process::exit(2);
+            // The batch runs definitions on 16 workers; state shared by the whole process (a cache, a flag, a counter)
+            // makes an output depend on what other workers did before, which a sequential re-run cannot reproduce. Not
+            // a verdict by itself: the history leg decides such cases deterministically; ./check treats a run whose only
+            // divergences are of this kind, and whose history leg stays silent, as a harness error.
+            eprintln!("hash-sim: definition {} diverged in the batch but not when re-run with the same keys: left to the history leg", def.id);
+            unstable += 1;
+            continue;
         };
         let (mdef, mv) = minimise(def, &v);
         let rj = replay_json(&mdef, &mv, seed, *index, true);
@@ -520,6 +526,7 @@ fn main() {
         "repo": defs.iter().filter(|d| d.origin == "repo").count(),
         "corpus": defs.iter().filter(|d| d.origin == "corpus").count(),
         "random": defs.iter().filter(|d| d.origin == "random").count(),
+        "diagnostic": defs.iter().filter(|d| d.origin == "diagnostic").count(),
     });
     result["draws_per_definition"] = json!(k);
     result["outputs_digest"] = json!(format!("{:016x}", fnv1a(digest.as_bytes())));
@@ -529,6 +536,7 @@ fn main() {
     result["tag"] = json!(tag);
     result["failures"] = json!(failures_json);
     result["failure_classes"] = json!(batch.failures.len());
+    result["unstable_failure_classes"] = json!(unstable);
     result["per_definition"] = json!(facts.values().cloned().collect::<Vec<_>>());
     match out_path {
         Some(p) => write_json(&p, &result),
